@@ -52,6 +52,8 @@ def gen(rng, tier):
     spec["edit"] = sorted(set(rng.randint(0, 6) for _ in range(rng.randint(1, 3))))
     spec["real_dir"] = rng.random() < 0.05
     spec["read_twice"] = rng.random() < 0.15
+    if spec["read_twice"] and rng.random() < 0.4:
+        spec["cont_rule"] = 4  # the continuation runs under the FIFO rule (which reads the state records of the tasks)
     if rng.random() < 0.05:
         spec["model"]["init_tz"] = rng.choice([0, 9, -5])  # init_datetime carries a time zone (hours east of UTC)
     if rng.random() < 0.1:
@@ -358,10 +360,13 @@ def run(spec):
             if D.call(lambda: pa.read_simple_json(path, **ekw)).ok:
                 seams.attach(pa)
                 seams.rerank(pa, ranks or {})
-                ra_, oa_ = scen.simulate(pa, dict(cfg, init_state=False, init_log=False), want_snap=False)
+                ccfg = dict(cfg, init_state=False, init_log=False)
+                if spec.get("cont_rule") is not None:
+                    ccfg["rule"] = spec["cont_rule"]
+                ra_, oa_ = scen.simulate(pa, ccfg, want_snap=False)
                 if stage in ("paused", "finished"):
                     # ... and it goes on exactly as the original goes on
-                    ro_, oo_ = scen.simulate(p, dict(cfg, init_state=False, init_log=False), want_snap=False)
+                    ro_, oo_ = scen.simulate(p, ccfg, want_snap=False)
                     da_, do_ = D.dump(pa), D.dump(p)
                     da_["_outcome"], do_["_outcome"] = [oa_.ok, oa_.exc_type, oa_.where], [oo_.ok, oo_.exc_type, oo_.where]
                     dd_ = D.first_diff(do_, da_)
